@@ -129,3 +129,59 @@ Definition iso_link_control (ct : Z) (b : option (Z * Z)) : option iso_req :=
       else None
     end
   else None.
+
+(* 0x19 ReadDTCInformation: SF = report type, then the parameters of that type (Appendix A of DESIGN.md).  The two report types the
+   library lists as "todo" (0x1A, 0x56) have no layout here.  The severity mask byte is (severity, bits 5..7 only when given as a
+   Severity object) | (DTC class & 0x1F); a class without a severity mask is refused.  The size of the extended data, which the
+   library validates only when decoding the reply, is not part of the request (see the known finding in DESIGN.md). *)
+Definition iso_in (sub : Z) (l : list Z) : bool := existsb (Z.eqb sub) l.
+Definition iso_dtc_all : list Z := [1; 2; 3; 4; 5; 6; 7; 8; 9; 10; 11; 12; 13; 14; 15; 16; 17; 18; 19; 20; 21; 22; 23; 24; 25; 26; 0x42; 0x55; 0x56].
+Definition iso_dtc_2020 : list Z := [0x17; 0x16; 0x18; 0x19; 0x1A; 0x42; 0x55; 0x56].
+Definition iso_severity_mask (severity : option Z) (is_object : bool) (dtc_class : option Z) : option (option Z) :=
+  let s0 := match severity with Some v => Some (if is_object then Z.land v 224 else v) | None => None end in
+  match dtc_class with
+  | None => Some s0
+  | Some c => match s0 with None => None | Some v => Some (Some (Z.lor v (Z.land c 31))) end
+  end.
+Definition iso_opt (o : option Z) (hi : Z) (n : nat) : option bytes :=
+  match o with Some v => if in_u v hi then Some (be_enc n v) else None | None => None end.
+Definition iso_cat (l : list (option bytes)) : option bytes :=
+  fold_right (fun x acc => match x, acc with Some a, Some b => Some (a ++ b) | _, _ => None end) (Some []) l.
+Definition iso_read_dtc (edition sub : Z) (status severity : option Z) (sev_is_object : bool) (dtc_class dtc snap ext memsel fgid : option Z)
+  : option iso_req :=
+  if negb (in_u sub 255 && (1 <=? sub)) || negb (iso_in sub iso_dtc_all) then None
+  else if iso_in sub iso_dtc_2020 && (edition <? 2020) then None
+  else match iso_severity_mask severity sev_is_object dtc_class with
+  | None => None
+  | Some sev =>
+    let params :=
+      if iso_in sub [0x0A; 0x0B; 0x0C; 0x0D; 0x0E; 0x14; 0x15; 0x03] then Some []
+      else if iso_in sub [0x01; 0x02; 0x0F; 0x11; 0x12; 0x13] then iso_cat [iso_opt status 255 1]
+      else if sub =? 0x04 then iso_cat [iso_opt dtc 16777215 3; iso_opt snap 255 1]
+      else if sub =? 0x18 then iso_cat [iso_opt dtc 16777215 3; iso_opt snap 255 1; iso_opt memsel 255 1]
+      else if sub =? 0x05 then iso_cat [iso_opt snap 255 1]
+      else if iso_in sub [0x06; 0x10] then iso_cat [iso_opt dtc 16777215 3; iso_opt ext 255 1]
+      else if sub =? 0x19 then iso_cat [iso_opt dtc 16777215 3; iso_opt ext 255 1; iso_opt memsel 255 1]
+      else if iso_in sub [0x07; 0x08] then iso_cat [iso_opt sev 255 1; iso_opt status 255 1]
+      else if sub =? 0x09 then iso_cat [iso_opt dtc 16777215 3]
+      else if sub =? 0x17 then iso_cat [iso_opt status 255 1; iso_opt memsel 255 1]
+      else if sub =? 0x16 then iso_cat [iso_opt ext 239 1]
+      else if sub =? 0x42 then iso_cat [iso_opt fgid 254 1; iso_opt status 255 1; iso_opt sev 255 1]
+      else if sub =? 0x55 then iso_cat [iso_opt fgid 254 1]
+      else None in
+    match params with Some d => ireq "ReadDTCInformation" (Some sub) d | None => None end
+  end.
+
+(* 0x2C 01 defineByIdentifier: U16 dynamic DID, then (U16 source DID, U8 position, U8 size)+ *)
+Definition iso_bydid_entry (e : Z * Z * Z) : option bytes :=
+  let '(sd, pos, ms) := e in if in_u sd 65535 && in_u pos 255 && in_u ms 255 then Some (u16 sd ++ u8 pos ++ u8 ms) else None.
+Definition iso_define_by_did (did : Z) (entries : list (Z * Z * Z)) : option iso_req :=
+  match entries with
+  | [] => None
+  | _ => if in_u did 65535 then
+           match iso_cat (map iso_bydid_entry entries) with
+           | Some d => ireq "DynamicallyDefineDataIdentifier" (Some 1) (u16 did ++ d)
+           | None => None
+           end
+         else None
+  end.
